@@ -312,7 +312,15 @@ def _case(seed: int) -> Dict[str, Any]:
     # every third case: operator names that also occur as user annotations (one name under two categories)
     a = gen.gen_trace_set(seed, n_ranks=nr, steps=2 + seed % 2, n_top=2, n_streams=2, p_dual_cat=0.5 if seed % 3 == 0 else 0.0,
                           step_base=9 if seed % 2 else 10)  # 9, 10, 11: numeric order differs from the order of the annotation strings
+    if seed % 4 == 2:
+        # two ranks of one run executing the very same operators (identical vocabularies on every rank), the SECOND rank selected
+        import copy as _copy
+
+        a = {0: a[0], 1: _copy.deepcopy(a[0])}
+        nr = 2
     b = {rk: _variant(evs, rng) for rk, evs in a.items()}
+    file_names = {"a": {rk: {i: e["name"] for i, e in gen.complete_events(evs)} for rk, evs in a.items()},
+                  "b": {rk: {i: e["name"] for i, e in gen.complete_events(evs)} for rk, evs in b.items()}}
     fails: List[Dict[str, Any]] = []
     n = 0
     inp = {"seed": seed, "control": a, "test": b}
@@ -325,11 +333,13 @@ def _case(seed: int) -> Dict[str, Any]:
             return {"n_checks": 1, "fails": fails, "nontrivial": True}
 
         def summary(lt, ranks, its, dev, short):
-            tab = lt.t.symbol_table.get_sym_table()
+            # names are those of the FILE's events (row id = position in the file), not what the loaded frame decodes to
+            src = file_names["a" if lt is la else "b"]
             cnt: Dict[str, List[int]] = {}
             for rk in ranks:
                 df = lt.t.get_trace(rk)
-                for nm, du, it, s in zip(df["name"], df["dur"], df["iteration"], df["stream"]):
+                tab = src[rk]
+                for nm, du, it, s in zip(df["index"], df["dur"], df["iteration"], df["stream"]):
                     if int(it) not in its:
                         continue
                     if dev == DeviceType.CPU and s != -1:
@@ -371,6 +381,8 @@ def _case(seed: int) -> Dict[str, Any]:
             ic = [its_c[0]] if seed % 2 else its_c[:2]
             it = [its_t[-1]] if seed % 3 == 0 and not self_cmp else ic
             rc = ctl.ranks()[: 1 + seed % 2] if len(ctl.ranks()) > 1 and seed % 5 == 0 else [ctl.ranks()[0]]
+            if len(ctl.ranks()) > 1 and seed % 4 == 2:
+                rc = [ctl.ranks()[1]]
             rtt = rc if set(rc) <= set(tst.ranks()) else [tst.ranks()[0]]
             # the SAME objects and the SAME selection with short and then long names (and the reverse order for every other seed): a call history
             modes = [(d_, s_) for d_ in (DeviceType.ALL, DeviceType.CPU, DeviceType.GPU) for s_ in (((True, False) if seed % 2 else (False, True)) if d_ != DeviceType.CPU else (False,))]
